@@ -17,6 +17,41 @@ func Run(c *common.Ctx) error {
 	}
 	cf := c.Cases("cases_c09", hist.CoqHeader, hist.CoqType, "mismatches")
 	cf.Shard = 3
+	// fixed history: stray temporary files in the log directory (two of them, adjacent in directory order) and retention
+	// sweeps over it - the sweep lists the directory, and nothing but transaction files may count
+	{
+		cfg := hist.Config{PageSize: 512, Retention: true}
+		h, err := hist.New(c, c.Rng.Fork(), cfg)
+		if err != nil {
+			if h != nil {
+				h.Close()
+			}
+			return fmt.Errorf("history setup: %w", err)
+		}
+		for _, st := range []hist.Step{
+			{Op: "rtx", Writes: map[uint32]uint64{1: 1, 2: 2, 3: 3}, NewSize: 3},
+			{Op: "rtx", Writes: map[uint32]uint64{2: 12}, NewSize: 3},
+			{Op: "rtx", Writes: map[uint32]uint64{3: 23}, NewSize: 3},
+			{Op: "tmpfile"},
+			{Op: "retention", Ages: []bool{true, true, true}},
+			{Op: "rtx", Writes: map[uint32]uint64{1: 31}, NewSize: 3},
+			{Op: "tmpfile"},
+			{Op: "retention", Ages: []bool{true, true}},
+			{Op: "rtx", Writes: map[uint32]uint64{2: 42}, NewSize: 3},
+			{Op: "reopen"},
+			{Op: "rtx", Writes: map[uint32]uint64{3: 53}, NewSize: 3},
+			{Op: "retention", Ages: []bool{true, false, false}},
+		} {
+			if ob := h.Exec(st); ob.Panic != "" || len(ob.Exits) > 0 {
+				break
+			}
+		}
+		h.CheckCrash(c, "C09")
+		h.CheckChain(c)
+		h.CheckRetention(c)
+		cf.Add(h.CoqCase(), map[string]any{"kind": "history", "page_size": cfg.PageSize, "scripted": "stray temporary files and retention", "steps": h.Steps})
+		h.Close()
+	}
 	nHist := c.Pick(20, 160)
 	for i := 0; i < nHist; i++ {
 		cfg := cfgs[i%len(cfgs)]
